@@ -81,7 +81,8 @@ def check(ctx):
         for L in sorted({max(0, hl - 18), max(0, hl - 5), max(0, hl - 4), max(0, hl - 1), hl, hl + 1, hl + 30}):
             fr = (bytes([fc0, fc1]) + bytes(rnd.getrandbits(8) for _ in range(max(0, L - 2))))[:L]
             tail = (zlib.crc32(fr) & 0xffffffff).to_bytes(4, "little") if fcs else b""
-            pairs.append(("cls 0 " + (fr.hex() or "-"), "cls 1 " + (h + fr + tail).hex()))
+            # the mode argument is a C truth value: any non-zero selector announces the radiotap header
+            pairs.append(("cls 0 " + (fr.hex() or "-"), "cls %d %s" % (rnd.choice([1, 1, 1, 2, -1, 8, 256, 2147483647]), (h + fr + tail).hex())))
     flat = [x for pr in pairs for x in pr]
     outs, _, _ = fw.run_suite(ctx, exe, "S-rtg/prefix-classification", flat, "classification behind a generated radiotap header")
     fw.run_suite(ctx, exe, "S-rtg/prefix-classification@+4", flat[: 2 * (len(flat) // 8)], "classification behind a generated radiotap header at a misaligned address", env={"LWV_MISALIGN": "4"})
